@@ -12,6 +12,11 @@ from vlib.case import hash_noise, smooth_field, tdtype
 from vlib.core import Facet, Skip, Violation, check_close, eps_of
 
 PROPERTY = "C11"
+MANIFEST = {
+    "text": "Generated-input search (Hypothesis) over dimensions, shapes, conventions, constructed invariant affine generators, steps, scales, dtypes and batch sizes against the closed form (I+sH/2^k)^(2^k) computed in float64 numpy, plus metamorphic equivalences (inverse flag / negated field / negated scale, ExpFlow and SVF-transform forms), a convergence bound to expm and a derived second-order bound for smooth fields. Exploration: no absence proof; the closed form pins every grid point to ~1e-14 (f64) so discrete convention/scaling errors are orders of magnitude above the bound.",
+    "note": "Trusted: numpy/scipy matrix_power and expm, the reference construction of normalised sample coordinates in props/c11.py; CPU only; float32/float64; shapes <= 12 (2-D) / 9 (3-D) per axis for the closed form.",
+    "technique": "property-based testing (Hypothesis) with a closed-form reference model and metamorphic relations",
+}
 ASSUMPTIONS = [
     "affine generators are constructed (not filtered) so that the hull of the sample coordinates is invariant",
     "smooth-field inverse bound err <= 3 a^2 D (pi w/(n-1))^2 + floor is derived from the linear-interpolation error "
